@@ -1,5 +1,8 @@
 import Srctools.Model.C05
 import Mathlib.Tactic.Linarith
+import Mathlib.Tactic.Ring
+import Mathlib.Tactic.FieldSimp
+import Mathlib.Tactic.Positivity
 set_option exponentiation.threshold 3000
 /-! Lemmas for C05. Part 1: the exact binary64 model (`B64`): `x % 360.0 % 360.0` is a finite value in `[0, 360)`
 for every finite `x`. -/
@@ -1084,10 +1087,16 @@ theorem shape_of_parts (s : Bool) (D F : List Char) (hD : D ≠ []) (hDd : ∀ c
     · rename_i r hnot
       exact this
 
+/-- digits before the point of `'%.6f' % y` -/
+def intDigits (m : Nat) : List Char := natDigits (roundHE (m * 1000000) U / 1000000)
+/-- digits after the point that survive the stripping -/
+def fracDigits (m : Nat) : List Char := rstrip '0' (pad6 (roundHE (m * 1000000) U % 1000000))
+
 /-- `'%.6f'` text of a finite value, stripped as `format_float` strips it: sign, digits, and either nothing or a
 point followed by 1–6 digits. -/
 theorem strip_fmt6 (s : Bool) (m : Nat) :
-    ∃ D F, D ≠ [] ∧ (∀ c ∈ D, isDigit c = true) ∧ (F = [] ∨ (F.length ≤ 6 ∧ ∀ c ∈ F, isDigit c = true)) ∧
+    ∃ D F, D = intDigits m ∧ F = fracDigits m ∧
+      D ≠ [] ∧ (∀ c ∈ D, isDigit c = true) ∧ (F = [] ∨ (F.length ≤ 6 ∧ ∀ c ∈ F, isDigit c = true)) ∧
       rstrip '.' (rstrip '0' (fmt6 (.fin s m))) =
         (if s then ['-'] else []) ++ D ++ (if F = [] then [] else '.' :: F) ∧
       (fmt6 (.fin s m)).contains '.' = true := by
@@ -1110,7 +1119,7 @@ theorem strip_fmt6 (s : Bool) (m : Nat) :
   have hsgD : rstrip '.' (sg ++ D) = sg ++ D := by
     have hD1' : D ≠ [] := hD1
     rw [rstrip_append, rstrip_all_digits_noop_dot D hD1 hD2, if_neg hD1']
-  refine ⟨D, F, hD1, hD2, ?_, ?_, ?_⟩
+  refine ⟨D, F, rfl, rfl, hD1, hD2, ?_, ?_, ?_⟩
   · by_cases h : F = []
     · exact Or.inl h
     · exact Or.inr ⟨hFlen, hFsub⟩
@@ -1135,47 +1144,516 @@ theorem strip_fmt6 (s : Bool) (m : Nat) :
     simp
 
 
+end B64
+
+/-! Part 6: doubles are representable magnitudes; `x + 0.0`. -/
+namespace B64
+
+/-- representable magnitude: a multiple of the quantum of its own binade -/
+def Rep (m : Nat) : Prop := 2 ^ quantExp m ∣ m
+
+theorem roundHE_of_dvd (n d : Nat) (hd : 0 < d) (h : d ∣ n) : roundHE n d = n / d := by
+  unfold roundHE
+  have : n % d = 0 := Nat.mod_eq_zero_of_dvd h
+  simp only [this, Nat.mul_zero, hd, if_true]
+
+/-- rounding is the identity on representable magnitudes -/
+theorem roundMag_rep (m : Nat) (h : Rep m) : roundMag m 1 = m := by
+  unfold roundMag
+  simp only [Nat.div_one, Nat.one_mul]
+  have hp : 0 < 2 ^ quantExp m := Nat.pow_pos (by decide)
+  rw [roundHE_of_dvd m _ hp h]
+  exact Nat.div_mul_cancel h
+
+theorem add_zero_rep (s : Bool) (m : Nat) (h : Rep m) (hlt : m < maxMag) :
+    add (.fin s m) zero = if m = 0 then .fin false 0 else .fin s m := by
+  show ofInt ((Val.fin s m).toInt + (Val.fin false 0).toInt) (s && false) = _
+  by_cases hm : m = 0
+  · subst hm
+    cases s <;> simp [Val.toInt, ofInt]
+  · simp only [hm, if_false]
+    cases s with
+    | false =>
+      have : (Val.fin false m).toInt + (Val.fin false 0).toInt = (m : Int) := by simp [Val.toInt]
+      rw [this, ofInt_natCast_pos m (by omega)]
+      unfold rnd
+      rw [roundMag_rep m h]
+      simp [hlt]
+    | true =>
+      have hv : (Val.fin true m).toInt + (Val.fin false 0).toInt = -(m : Int) := by simp [Val.toInt]
+      rw [hv]
+      unfold ofInt
+      have h1 : ((-(m : Int)) == 0) = false := by simp; omega
+      have h2 : decide (-(m : Int) < 0) = true := by simp; omega
+      simp only [h1, Bool.false_eq_true, if_false, h2, Int.natAbs_neg, Int.natAbs_natCast]
+      unfold rnd
+      rw [roundMag_rep m h]
+      simp [hlt]
+
+theorem rep_small (f : Nat) (hf : f < 2 ^ 52) : Rep f := by
+  unfold Rep quantExp
+  have : f.log2 - 52 = 0 := by
+    by_cases h0 : f = 0
+    · subst h0; decide
+    · have := (Nat.log2_lt h0).2 hf
+      omega
+  rw [this]; simp
+
+theorem rep_normal (f k : Nat) (hf : f < 2 ^ 52) : Rep ((2 ^ 52 + f) * 2 ^ k) ∧ (2 ^ 52 + f) * 2 ^ k < 2 ^ (53 + k) := by
+  have hp : 0 < 2 ^ k := Nat.pow_pos (by decide)
+  have hm : (2 ^ 52 + f) * 2 ^ k ≠ 0 := by
+    have : 0 < (2 ^ 52 + f) * 2 ^ k := Nat.mul_pos (by omega) hp
+    omega
+  have hlo : 2 ^ (52 + k) ≤ (2 ^ 52 + f) * 2 ^ k := by
+    rw [Nat.pow_add]; exact Nat.mul_le_mul_right _ (by omega)
+  have hhi : (2 ^ 52 + f) * 2 ^ k < 2 ^ (52 + k + 1) := by
+    have : 2 ^ (52 + k + 1) = 2 ^ 53 * 2 ^ k := by
+      rw [show 52 + k + 1 = 53 + k by omega, Nat.pow_add]
+    rw [this]
+    exact Nat.mul_lt_mul_of_pos_right (by omega) hp
+  have hlog : ((2 ^ 52 + f) * 2 ^ k).log2 = 52 + k := (Nat.log2_eq_iff hm).2 ⟨hlo, hhi⟩
+  refine ⟨?_, by rw [show 53 + k = 52 + k + 1 by omega]; exact hhi⟩
+  unfold Rep quantExp
+  rw [hlog, show 52 + k - 52 = k by omega]
+  exact Dvd.intro_left _ rfl
+
+/-- every finite bit pattern decodes to a representable magnitude below 2^1024 -/
+theorem decode_rep (w : UInt64) (s : Bool) (m : Nat) (h : decode w = .fin s m) : Rep m ∧ m < maxMag := by
+  unfold decode at h
+  simp only at h
+  have hf : w.toNat % 2 ^ 52 < 2 ^ 52 := Nat.mod_lt _ (by decide)
+  have he : (w.toNat / 2 ^ 52) % 2048 < 2048 := Nat.mod_lt _ (by decide)
+  generalize w.toNat % 2 ^ 52 = f at h hf
+  generalize (w.toNat / 2 ^ 52) % 2048 = e at h he
+  split at h
+  · split at h <;> cases h
+  · rename_i h47
+    split at h
+    · simp only [Val.fin.injEq] at h
+      obtain ⟨_, rfl⟩ := h
+      exact ⟨rep_small f hf, Nat.lt_trans hf (by decide +kernel)⟩
+    · rename_i h0
+      simp only [Val.fin.injEq] at h
+      obtain ⟨_, rfl⟩ := h
+      have h47' : e ≠ 2047 := by simpa using h47
+      have h0' : e ≠ 0 := by simpa using h0
+      obtain ⟨h1, h2⟩ := rep_normal f (e - 1) hf
+      refine ⟨h1, Nat.lt_of_lt_of_le h2 ?_⟩
+      unfold maxMag
+      exact Nat.pow_le_pow_right (by decide) (by omega)
+
+/-- `x + 0.0` of a finite double is the same value (with -0.0 becoming +0.0): in particular finite -/
+theorem add_zero_decode (w : UInt64) (s : Bool) (m : Nat) (h : decode w = .fin s m) :
+    add (decode w) zero = if m = 0 then .fin false 0 else .fin s m := by
+  obtain ⟨h1, h2⟩ := decode_rep w s m h
+  rw [h]; exact add_zero_rep s m h1 h2
+
+theorem add_zero_decode_finite (w : UInt64) (h : (decode w).isFinite = true) : (add (decode w) zero).isFinite = true := by
+  cases hd : decode w with
+  | fin s m =>
+    rw [← hd, add_zero_decode w s m hd]
+    split <;> rfl
+  | inf s => rw [hd] at h; cases h
+  | nan => rw [hd] at h; cases h
+
+end B64
+
+/-! Part 7: value of the text (`decVal`), the `-0` class, closeness. -/
+namespace B64
+
+/-- exact rational value of plain decimal text `-?digits[.digits]` -/
+def decVal (l : List Char) : Rat :=
+  let neg := match l with
+    | '-' :: _ => true
+    | _ => false
+  let l := match l with
+    | '-' :: r => r
+    | r => r
+  let ip := l.takeWhile isDigit
+  let fp := match l.dropWhile isDigit with
+    | '.' :: f => f
+    | _ => []
+  let v : Rat := ((digitsVal ip : Nat) : Rat) + ((digitsVal fp : Nat) : Rat) / ((10 ^ fp.length : Nat) : Rat)
+  if neg then -v else v
+
+theorem digitsVal_snoc (l : List Char) (c : Char) : digitsVal (l ++ [c]) = digitsVal l * 10 + (c.toNat - 48) := by
+  simp [digitsVal, List.foldl_append]
+
+theorem digitChar_val (d : Nat) : (digitChar d).toNat - 48 = d % 10 := by
+  unfold digitChar
+  have h : d % 10 < 10 := Nat.mod_lt _ (by decide)
+  generalize d % 10 = k at h
+  have : ∀ k : Fin 10, (Char.ofNat (48 + k.val)).toNat - 48 = k.val := by decide
+  exact this ⟨k, h⟩
+
+theorem natDigitsAux_val : ∀ (fuel n : Nat) (acc : List Char), n < 10 ^ fuel →
+    ∃ pre, natDigitsAux fuel n acc = pre ++ acc ∧ digitsVal pre = n := by
+  intro fuel
+  induction fuel with
+  | zero =>
+    intro n acc h
+    have : n = 0 := by simpa using h
+    subst this
+    exact ⟨[], rfl, rfl⟩
+  | succ k ih =>
+    intro n acc h
+    unfold natDigitsAux
+    split
+    · rename_i hlt
+      refine ⟨[digitChar n], rfl, ?_⟩
+      have := digitsVal_snoc [] (digitChar n)
+      simp only [List.nil_append] at this
+      rw [this, digitChar_val]
+      simp [digitsVal]; omega
+    · rename_i hge
+      have hdiv : n / 10 < 10 ^ k := by
+        rw [Nat.div_lt_iff_lt_mul (by decide)]
+        rw [Nat.pow_succ] at h; exact h
+      obtain ⟨pre, h1, h2⟩ := ih (n / 10) (digitChar (n % 10) :: acc) hdiv
+      refine ⟨pre ++ [digitChar (n % 10)], by rw [h1]; simp, ?_⟩
+      rw [digitsVal_snoc, h2, digitChar_val]
+      omega
+
+theorem natDigits_val (n : Nat) : digitsVal (natDigits n) = n := by
+  have hb : n < 10 ^ (Nat.log2 n + 1) :=
+    Nat.lt_of_lt_of_le Nat.lt_log2_self (Nat.pow_le_pow_left (by decide) _)
+  obtain ⟨pre, h1, h2⟩ := natDigitsAux_val (Nat.log2 n + 1) n [] hb
+  unfold natDigits
+  rw [h1, List.append_nil]; exact h2
+
+theorem pad6_val (f : Nat) (h : f < 1000000) : digitsVal (pad6 f) = f := by
+  have e : ∀ (a b c d e g : Char), digitsVal [a, b, c, d, e, g] =
+      (((((0 * 10 + (a.toNat - 48)) * 10 + (b.toNat - 48)) * 10 + (c.toNat - 48)) * 10 + (d.toNat - 48)) * 10
+        + (e.toNat - 48)) * 10 + (g.toNat - 48) := by
+    intros; rfl
+  unfold pad6
+  rw [e]
+  simp only [digitChar_val]
+  omega
+
+theorem digitsVal_zeros (l : List Char) (j : Nat) :
+    digitsVal (l ++ List.replicate j '0') = digitsVal l * 10 ^ j := by
+  induction j generalizing l with
+  | zero => simp
+  | succ k ih =>
+    have : l ++ List.replicate (k + 1) '0' = (l ++ ['0']) ++ List.replicate k '0' := by
+      simp [List.replicate_succ]
+    rw [this, ih, digitsVal_snoc]
+    have : ('0' : Char).toNat - 48 = 0 := by decide
+    rw [this, Nat.pow_succ]
+    simp [Nat.mul_assoc, Nat.mul_comm]
+
+theorem mem_takeWhile_pos (p : Char → Bool) : ∀ (l : List Char) (x : Char), x ∈ l.takeWhile p → p x = true := by
+  intro l
+  induction l with
+  | nil => intro x hx; cases hx
+  | cons a t ih =>
+    intro x hx
+    rw [List.takeWhile_cons] at hx
+    split at hx
+    · rename_i ha
+      rcases List.mem_cons.1 hx with h | h
+      · rw [h]; exact ha
+      · exact ih x h
+    · cases hx
+
+theorem rstrip_decomp (c : Char) (l : List Char) : ∃ j, l = rstrip c l ++ List.replicate j c := by
+  unfold rstrip
+  refine ⟨(l.reverse.takeWhile (· == c)).length, ?_⟩
+  have h := List.takeWhile_append_dropWhile (p := (· == c)) (l := l.reverse)
+  have hall : ∀ x ∈ l.reverse.takeWhile (· == c), x = c := by
+    intro x hx
+    have := mem_takeWhile_pos (· == c) _ x hx
+    simpa using this
+  have hrep : l.reverse.takeWhile (· == c) = List.replicate (l.reverse.takeWhile (· == c)).length c :=
+    List.eq_replicate_iff.2 ⟨rfl, hall⟩
+  have : l = (l.reverse.dropWhile (· == c)).reverse ++ (l.reverse.takeWhile (· == c)).reverse := by
+    rw [← List.reverse_append, h, List.reverse_reverse]
+  rw [hrep, List.reverse_replicate] at this
+  exact this
+
+
+theorem decVal_parts (s : Bool) (D F : List Char) (hD : D ≠ []) (hDd : ∀ c ∈ D, isDigit c = true) :
+    decVal ((if s then ['-'] else []) ++ D ++ (if F = [] then [] else '.' :: F)) =
+      (if s then -1 else 1) * (((digitsVal D : Nat) : Rat) + ((digitsVal F : Nat) : Rat) / ((10 ^ F.length : Nat) : Rat)) := by
+  obtain ⟨d, t, rfl⟩ : ∃ d t, D = d :: t := by
+    cases D with
+    | nil => exact absurd rfl hD
+    | cons d t => exact ⟨d, t, rfl⟩
+  have hd : isDigit d = true := hDd d (by simp)
+  have hdm : d ≠ '-' := by
+    intro h; rw [h] at hd; exact absurd hd (by decide)
+  have hdot : isDigit '.' = false := by decide
+  -- the part after the sign
+  have body : ∀ rest : List Char, rest = (if F = [] then [] else '.' :: F) →
+      (((digitsVal ((d :: t ++ rest).takeWhile isDigit) : Nat) : Rat) +
+        ((digitsVal (match (d :: t ++ rest).dropWhile isDigit with | '.' :: f => f | _ => []) : Nat) : Rat) /
+          ((10 ^ (match (d :: t ++ rest).dropWhile isDigit with | '.' :: f => f | _ => []).length : Nat) : Rat)) =
+      ((digitsVal (d :: t) : Nat) : Rat) + ((digitsVal F : Nat) : Rat) / ((10 ^ F.length : Nat) : Rat) := by
+    intro rest hrest
+    rw [tw_all isDigit (d :: t) rest hDd, dw_all isDigit (d :: t) rest hDd]
+    by_cases hF0 : F = []
+    · subst hF0
+      simp only [if_true] at hrest
+      subst hrest
+      simp
+    · simp only [hF0, if_false] at hrest
+      subst hrest
+      simp only [List.takeWhile_cons, hdot, Bool.false_eq_true, if_false, List.append_nil, List.dropWhile_cons]
+  unfold decVal
+  cases s with
+  | true =>
+    simp only [if_true, List.cons_append, List.nil_append]
+    have := body _ rfl
+    simp only [List.cons_append] at this
+    rw [this]; ring
+  | false =>
+    simp only [Bool.false_eq_true, if_false, List.nil_append, List.cons_append]
+    have h1 : (match d :: (t ++ if F = [] then [] else '.' :: F) with | '-' :: _ => true | _ => false) = false := by
+      split
+      · rename_i r heq
+        simp only [List.cons.injEq] at heq
+        exact absurd heq.1 hdm
+      · rfl
+    have h2 : (match d :: (t ++ if F = [] then [] else '.' :: F) with | '-' :: r => r | r => r) =
+        d :: (t ++ if F = [] then [] else '.' :: F) := by
+      split
+      · rename_i r heq
+        simp only [List.cons.injEq] at heq
+        exact absurd heq.1 hdm
+      · rfl
+    rw [h1, h2]
+    have := body _ rfl
+    simp only [List.cons_append] at this
+    simp only [Bool.false_eq_true, if_false]
+    rw [this]; ring
+
+/-- `roundHE a d` is within half of `a / d` -/
+theorem roundHE_spec (a d : Nat) (hd : 0 < d) :
+    2 * (roundHE a d * d) ≤ 2 * a + d ∧ 2 * a ≤ 2 * (roundHE a d * d) + d := by
+  have hdm := Nat.div_add_mod a d
+  have hr : a % d < d := Nat.mod_lt _ hd
+  unfold roundHE
+  simp only
+  generalize a / d = q at *
+  generalize a % d = r at *
+  have e1 : (q + 1) * d = d * q + d := by rw [Nat.add_mul, Nat.mul_comm]; simp
+  have e0 : q * d = d * q := Nat.mul_comm _ _
+  split
+  · rw [e0]; omega
+  · split
+    · rw [e1]; omega
+    · split
+      · rw [e0]; omega
+      · rw [e1]; omega
+
+
 /-- characters of plain decimal notation -/
 def plainChar (c : Char) : Bool := c == '-' || c == '.' || isDigit c
 
+/-- explicit text of `format_float` for a value whose `x + 0.0` is the finite `±m` -/
+theorem formatFloat_eq (x : Val) (s : Bool) (m : Nat) (hadd : add x zero = .fin s m) :
+    formatFloat x = (if s then ['-'] else []) ++ intDigits m ++ (if fracDigits m = [] then [] else '.' :: fracDigits m) := by
+  obtain ⟨D, F, rfl, rfl, _, _, _, hstrip, hcont⟩ := strip_fmt6 s m
+  unfold formatFloat
+  simp only [hadd, hcont, if_true]
+  exact hstrip
+
 theorem formatFloat_shape (x : Val) (hy : (add x zero).isFinite = true) :
-    shapeOK (formatFloat x) = true ∧ formatFloat x ≠ ['-', '0'] ∧ ∀ c ∈ formatFloat x, plainChar c = true := by
+    shapeOK (formatFloat x) = true ∧ ∀ c ∈ formatFloat x, plainChar c = true := by
   cases hadd : add x zero with
   | inf s => rw [hadd] at hy; cases hy
   | nan => rw [hadd] at hy; cases hy
   | fin s m =>
-    obtain ⟨D, F, hD1, hD2, hF, hstrip, hcont⟩ := strip_fmt6 s m
-    have hold : formatFloatOld x = (if s then ['-'] else []) ++ D ++ (if F = [] then [] else '.' :: F) := by
-      unfold formatFloatOld
-      simp only [hadd, hcont, if_true]
-      exact hstrip
-    have hshape := shape_of_parts s D F hD1 hD2 hF
-    have hchars : ∀ c ∈ formatFloatOld x, plainChar c = true := by
-      rw [hold]
-      intro c hc
-      simp only [List.mem_append] at hc
-      rcases hc with (hc | hc) | hc
-      · cases s <;> simp at hc
-        rw [hc]; decide
-      · simp [plainChar, hD2 c hc]
-      · by_cases hF0 : F = []
-        · simp [hF0] at hc
-        · simp only [hF0, if_false, List.mem_cons] at hc
-          rcases hc with hc | hc
-          · rw [hc]; decide
-          · rcases hF with h | ⟨_, h⟩
-            · exact absurd h hF0
-            · simp [plainChar, h c hc]
-    unfold formatFloat
+    obtain ⟨D, F, hDe, hFe, hD1, hD2, hF, _, _⟩ := strip_fmt6 s m
+    rw [formatFloat_eq x s m hadd, ← hDe, ← hFe]
+    refine ⟨shape_of_parts s D F hD1 hD2 hF, ?_⟩
+    intro c hc
+    simp only [List.mem_append] at hc
+    rcases hc with (hc | hc) | hc
+    · cases s <;> simp at hc
+      rw [hc]; decide
+    · simp [plainChar, hD2 c hc]
+    · by_cases hF0 : F = []
+      · simp [hF0] at hc
+      · simp only [hF0, if_false, List.mem_cons] at hc
+        rcases hc with hc | hc
+        · rw [hc]; decide
+        · rcases hF with h | ⟨_, h⟩
+          · exact absurd h hF0
+          · simp [plainChar, h c hc]
+
+theorem intDigits_val (m : Nat) : digitsVal (intDigits m) = roundHE (m * 1000000) U / 1000000 := natDigits_val _
+
+theorem fracDigits_val (m : Nat) : ∃ j, digitsVal (fracDigits m) * 10 ^ j = roundHE (m * 1000000) U % 1000000 ∧
+    (fracDigits m).length + j = 6 := by
+  obtain ⟨j, hj⟩ := rstrip_decomp '0' (pad6 (roundHE (m * 1000000) U % 1000000))
+  refine ⟨j, ?_, ?_⟩
+  · have := pad6_val (roundHE (m * 1000000) U % 1000000) (Nat.mod_lt _ (by decide))
+    rw [hj, digitsVal_zeros] at this
+    exact this
+  · have := congrArg List.length hj
+    simp only [pad6_length, List.length_append, List.length_replicate] at this
+    exact this.symm
+
+/-- **`format_float` prints `-0` exactly for the negative values that round to zero at six places.** -/
+theorem formatFloat_minus_zero_iff (x : Val) (hy : (add x zero).isFinite = true) :
+    formatFloat x = ['-', '0'] ↔ negRoundsToZero x = true := by
+  cases hadd : add x zero with
+  | inf s => rw [hadd] at hy; cases hy
+  | nan => rw [hadd] at hy; cases hy
+  | fin s m =>
+    obtain ⟨D, F, hDe, hFe, hD1, hD2, hF, _, _⟩ := strip_fmt6 s m
+    rw [formatFloat_eq x s m hadd]
+    unfold negRoundsToZero
+    simp only [hadd]
+    constructor
+    · intro h
+      -- the sign must be there: otherwise the text starts with a digit
+      cases s with
+      | false =>
+        exfalso
+        simp only [Bool.false_eq_true, if_false, List.nil_append] at h
+        rw [← hDe] at h
+        cases D with
+        | nil => exact hD1 rfl
+        | cons d t =>
+          simp only [List.cons_append, List.cons.injEq] at h
+          have := hD2 d (by simp)
+          rw [h.1] at this
+          exact absurd this (by decide)
+      | true =>
+        simp only [if_true, List.cons_append, List.nil_append, List.cons.injEq, true_and] at h
+        -- intDigits ++ tail = ['0']
+        have hD0 : intDigits m = ['0'] ∧ fracDigits m = [] := by
+          rw [← hDe, ← hFe] at h ⊢
+          cases D with
+          | nil => exact absurd rfl hD1
+          | cons d t =>
+            simp only [List.cons_append, List.cons.injEq] at h
+            obtain ⟨hd, ht⟩ := h
+            have ht' : t = [] ∧ (if F = [] then ([] : List Char) else '.' :: F) = [] := List.append_eq_nil_iff.1 ht
+            refine ⟨by rw [hd, ht'.1], ?_⟩
+            by_cases hF0 : F = []
+            · exact hF0
+            · have := ht'.2
+              simp [hF0] at this
+        have h1 := intDigits_val m
+        rw [hD0.1] at h1
+        obtain ⟨j, h2, _⟩ := fracDigits_val m
+        rw [hD0.2] at h2
+        have h1' : roundHE (m * 1000000) U / 1000000 = 0 := by
+          rw [← h1]; decide
+        have h2' : roundHE (m * 1000000) U % 1000000 = 0 := by
+          rw [← h2]; simp [digitsVal]
+        have : roundHE (m * 1000000) U = 0 := by omega
+        simp [this]
+    · intro h
+      cases s with
+      | false => simp at h
+      | true =>
+        have hn : roundHE (m * 1000000) U = 0 := by simpa using h
+        have e1 : intDigits m = ['0'] := by
+          unfold intDigits; rw [hn]; decide
+        have e2 : fracDigits m = [] := by
+          unfold fracDigits; rw [hn]; decide
+        rw [e1, e2]; rfl
+
+
+theorem U_pos : 0 < U := by unfold U; exact Nat.pow_pos (by decide)
+
+/-- exact rational value of the finite `±m` units -/
+def ratOf (s : Bool) (m : Nat) : Rat := (if s then -1 else 1) * ((m : Rat) / (U : Rat))
+
+theorem toRat?_fin (s : Bool) (m : Nat) : toRat? (.fin s m) = some (ratOf s m) := by
+  unfold toRat? ratOf
+  cases s <;> simp [neg_div]
+
+/-- the decimal number printed by `'%.6f'` is within half a unit of the sixth place -/
+theorem round6_close (m : Nat) :
+    |((roundHE (m * 1000000) U : Nat) : Rat) / 1000000 - (m : Rat) / (U : Rat)| ≤ 5 / 10000000 := by
+  obtain ⟨h1, h2⟩ := roundHE_spec (m * 1000000) U U_pos
+  have hU : (0 : Rat) < (U : Rat) := by exact_mod_cast U_pos
+  generalize roundHE (m * 1000000) U = n at h1 h2
+  have h1' : (2 : Rat) * ((n : Rat) * (U : Rat)) ≤ 2 * ((m : Rat) * 1000000) + (U : Rat) := by exact_mod_cast h1
+  have h2' : (2 : Rat) * ((m : Rat) * 1000000) ≤ 2 * ((n : Rat) * (U : Rat)) + (U : Rat) := by exact_mod_cast h2
+  generalize (U : Rat) = u at *
+  generalize (n : Rat) = a at *
+  generalize (m : Rat) = b at *
+  have key : a / 1000000 - b / u = (a * u - b * 1000000) / (1000000 * u) := by
+    rw [div_sub_div _ _ (by norm_num) (ne_of_gt hU)]
+    ring
+  rw [key, abs_le]
+  have hpos : (0 : Rat) < 1000000 * u := by positivity
+  constructor
+  · rw [le_div_iff₀ hpos]; linarith
+  · rw [div_le_iff₀ hpos]; linarith
+
+/-- **the decimal value of `format_float(x)` is within 5e-7 of `x + 0.0`** -/
+theorem formatFloat_close (x : Val) (s : Bool) (m : Nat) (hadd : add x zero = .fin s m) :
+    |decVal (formatFloat x) - ratOf s m| ≤ 5 / 10000000 := by
+  obtain ⟨D, F, hDe, hFe, hD1, hD2, _, _, _⟩ := strip_fmt6 s m
+  rw [formatFloat_eq x s m hadd, ← hDe, ← hFe, decVal_parts s D F hD1 hD2]
+  have hip := intDigits_val m
+  obtain ⟨j, hfp, hlen⟩ := fracDigits_val m
+  rw [← hDe] at hip
+  rw [← hFe] at hfp hlen
+  set n := roundHE (m * 1000000) U with hn
+  have hval : ((digitsVal D : Nat) : Rat) + ((digitsVal F : Nat) : Rat) / ((10 ^ F.length : Nat) : Rat) = (n : Rat) / 1000000 := by
+    have hdm : n = 1000000 * (n / 1000000) + n % 1000000 := (Nat.div_add_mod n 1000000).symm
+    have h10 : ((10 ^ F.length : Nat) : Rat) * ((10 ^ j : Nat) : Rat) = 1000000 := by
+      rw [← Nat.cast_mul, ← Nat.pow_add, hlen]; norm_num
+    have hj : ((10 ^ j : Nat) : Rat) ≠ 0 := by positivity
+    have hF' : ((10 ^ F.length : Nat) : Rat) ≠ 0 := by positivity
+    have e1 : ((digitsVal F : Nat) : Rat) / ((10 ^ F.length : Nat) : Rat) = ((n % 1000000 : Nat) : Rat) / 1000000 := by
+      rw [← hfp, Nat.cast_mul, ← h10]
+      field_simp
+    rw [e1, hip]
+    have : (n : Rat) = 1000000 * ((n / 1000000 : Nat) : Rat) + ((n % 1000000 : Nat) : Rat) := by
+      exact_mod_cast hdm
+    rw [this]; ring
+  rw [hval]
+  unfold ratOf
+  have := round6_close m
+  rw [← hn] at this
+  cases s with
+  | false => simpa using this
+  | true =>
+    have e : (-1 : Rat) * ((n : Rat) / 1000000) - -1 * ((m : Rat) / (U : Rat)) = -((n : Rat) / 1000000 - (m : Rat) / (U : Rat)) := by ring
+    simp only [if_true]
+    rw [e, abs_neg]; exact this
+
+end B64
+
+namespace B64
+
+/-- a non-negative value is never printed as `-0` -/
+theorem negRoundsToZero_nonneg (b : Nat) : negRoundsToZero (.fin false b) = false := by
+  unfold negRoundsToZero
+  have : add (.fin false b) zero = ofInt (b : Int) false := by
+    show ofInt ((Val.fin false b).toInt + (Val.fin false 0).toInt) (false && false) = _
+    simp [Val.toInt]
+  rw [this]
+  by_cases hb : b = 0
+  · subst hb; rfl
+  · rw [ofInt_natCast_pos b (by omega)]
+    unfold rnd
     simp only
-    by_cases hz : (formatFloatOld x == ['-', '0']) = true
-    · simp only [hz, if_true]
-      exact ⟨by decide, by decide, by decide⟩
-    · have hz' : (formatFloatOld x == ['-', '0']) = false := by simpa using hz
-      simp only [hz', Bool.false_eq_true, if_false]
-      refine ⟨by rw [hold]; exact hshape, ?_, hchars⟩
-      intro h
-      rw [h] at hz'
-      exact absurd hz' (by decide)
+    by_cases hlt : roundMag b 1 < maxMag
+    · simp only [hlt, if_true]
+    · simp only [hlt, if_false]
+
+theorem add_zero_angle_finite (b : Nat) (hb : b < M360) : (add (.fin false b) zero).isFinite = true := by
+  have : add (.fin false b) zero = ofInt (b : Int) false := by
+    show ofInt ((Val.fin false b).toInt + (Val.fin false 0).toInt) (false && false) = _
+    simp [Val.toInt]
+  rw [this]
+  by_cases h0 : b = 0
+  · subst h0; rfl
+  · rw [ofInt_natCast_pos b (by omega)]
+    unfold rnd
+    have hle := roundMag_le_M360 b (by omega) hb
+    have : roundMag b 1 < maxMag := Nat.lt_of_le_of_lt hle M360_lt_maxMag
+    simp [this, Val.isFinite]
 
 end B64
